@@ -55,7 +55,14 @@ impl<CS: ConcurrentStream> ConcurrentStream for Take<CS> {
     }
 
     fn size_hint(&self) -> (usize, Option<usize>) {
-        self.inner.size_hint()
+        // At most `limit` items come out of this stream, however long the
+        // inner stream says it is.
+        let (lower, upper) = self.inner.size_hint();
+        let upper = match upper {
+            Some(upper) if upper < self.limit => Some(upper),
+            _ => Some(self.limit),
+        };
+        (lower.min(self.limit), upper)
     }
 }
 
